@@ -1,10 +1,15 @@
 import MimeModel.Model.Detect
 import MimeModel.Gen.Tree
+import MimeModel.Lemmas.JsonForward
 /-
   C08 — well-formed JSON is recognised, whole or truncated.
+
+  "Well-formed" is the reference RFC 8259 recogniser `Spec.J.doc true` (Spec/Json.lean):
+  white space, one object or array, white space; it also returns the syntax tree, whose
+  nesting depth is `Spec.J.depth`.
 -/
 namespace Mime.C08
-open Mime Mime.Json
+open Mime Mime.Json Mime.Spec Mime.JsonLeaf Mime.JsonForward
 
 /-- regenerated facts about tree.go: `application/json` is a child of `text/plain`, tried
     after html, svg, xml, php and the shebang languages; its detector is `JSON` -/
@@ -14,5 +19,108 @@ theorem tree_facts :
       [["html", "svg", "xml", "php", "js", "lua", "perl", "python", "json"]] ∧
     (Gen.builtin.flatten.filter (fun i => i.name == "json")).map (·.det) = [.custom .json] := by
   constructor <;> decide
+
+theorem looksLike_of_firstNonWs (b : Bytes) (c : Nat) (h : J.firstNonWs b = some c)
+    (hc : c = 0x7B ∨ c = 0x5B) : looksLikeObjectOrArray b = true := by
+  induction b with
+  | nil => simp [J.firstNonWs, J.skipWs] at h
+  | cons x xs ih =>
+    simp only [looksLikeObjectOrArray, isSpace_eq_ws]
+    simp only [J.firstNonWs, J.skipWs] at h
+    split
+    · rename_i hw
+      simp only [hw, ↓reduceIte] at h
+      exact ih h
+    · rename_i hw
+      simp only [hw, Bool.false_eq_true, ↓reduceIte, List.head?_cons, Option.some.injEq] at h
+      subst h
+      rcases hc with rfl | rfl <;> simp
+
+theorem finishAny_flags (t : Nat) (res : Option Bytes × PState) :
+    (finishAny true 0 t res).2.firstToken = t ∧ (finishAny true 0 t res).2.querySatisfied = true := by
+  obtain ⟨rv, s2⟩ := res
+  simp only [finishAny]
+  cases rv with
+  | none => simp [PState.setQ, PState.setFirst]
+  | some r => simp [consumeSpace_spec, PState.setQ, PState.setFirst, PState.bump]
+
+/-- flags after the top-level call on an input whose first non-space byte is `c` -/
+theorem top_flags (cap fuel : Nat) (b : Bytes) (s : PState) (c : Nat) (cs : Bytes) (hsk : J.skipWs b = c :: cs)
+    (hcap : (cap != 0 && decide (0 > cap)) = false) :
+    (consumeAny [] cap (fuel + 1) 0 b s).2.firstToken = (classify c).tok ∧
+    (consumeAny [] cap (fuel + 1) 0 b s).2.querySatisfied = true := by
+  have hcs := consumeSpace_spec b (s.enter 0)
+  rw [hsk] at hcs
+  simp only [consumeAny, hcap, Bool.false_eq_true, ↓reduceIte, hcs, List.isEmpty_nil]
+  exact finishAny_flags _ _
+
+/-- **C08 (whole)**: every RFC 8259 object or array document of nesting depth at most the cap
+    is accepted when examined in full (limit 0, or shorter than the limit) -/
+theorem strict_accepts_whole (D : Bytes) (v : J.JVal) (lim : Nat)
+    (hdoc : J.doc true D = some v) (hdepth : J.depth v ≤ Gen.Json.maxRecursion)
+    (hwhole : lim = 0 ∨ D.length < lim) :
+    jsonHelper D lim Gen.Json.q_json (tokObject ||| tokArray) = true := by
+  unfold J.doc at hdoc
+  cases hf : J.firstNonWs D with
+  | none => simp [hf] at hdoc
+  | some c =>
+    simp only [hf] at hdoc
+    split at hdoc
+    · cases hdoc
+    · rename_i hc
+      have hc' : c = 0x7B ∨ c = 0x5B := by
+        simp only [Bool.and_eq_true, bne_iff_ne, ne_eq, not_and, Decidable.not_not] at hc
+        by_cases h1 : c = 0x7B
+        · exact Or.inl h1
+        · exact Or.inr (hc h1)
+      cases hval : J.value true (J.fuelFor D) D with
+      | more => simp [hval] at hdoc
+      | bad => simp [hval] at hdoc
+      | ok v' r =>
+        simp only [hval] at hdoc
+        split at hdoc
+        · rename_i hws
+          simp only [Option.some.injEq] at hdoc
+          subst hdoc
+          have hlook := looksLike_of_firstNonWs D c hf hc'
+          have hfw := (forward_all Gen.Json.q_json Gen.Json.maxRecursion (J.fuelFor D)).1 0 D v' r PState.fresh.reset hval
+            (delim_of_ws_only r hws) (Or.inr (by omega))
+          obtain ⟨f1, f2, f3⟩ := hfw
+          have hrnil : J.skipWs r = [] := by simpa using hws
+          rw [hrnil] at f1 f2
+          -- first non-space byte
+          have hsk : ∃ cs, J.skipWs D = c :: cs := by
+            simp only [J.firstNonWs] at hf
+            cases hs : J.skipWs D with
+            | nil => simp [hs] at hf
+            | cons x xs => simp [hs] at hf; exact ⟨xs, by rw [hf]⟩
+          obtain ⟨cs, hsk⟩ := hsk
+          have hfuel : J.fuelFor D = (2 * D.length + 3) + 1 := by simp [J.fuelFor]
+          have hflags := top_flags Gen.Json.maxRecursion (2 * D.length + 3) D PState.fresh.reset c cs hsk (by decide)
+          unfold jsonHelper parse parseWith
+          simp only [hlook, Bool.not_true, Bool.false_eq_true, ↓reduceIte]
+          have hff : fuelFor D = J.fuelFor D := by simp [fuelFor, J.fuelFor]
+          rw [hff]
+          generalize hres : consumeAny Gen.Json.q_json Gen.Json.maxRecursion (J.fuelFor D) 0 D PState.fresh.reset = res at f1 f2
+          rw [hfuel] at hres
+          have hq : Gen.Json.q_json = [] := rfl
+          rw [hq] at hres
+          rw [hres] at hflags
+          obtain ⟨rv, s'⟩ := res
+          simp only at f1 f2 hflags ⊢
+          subst f1
+          obtain ⟨ht, hqs⟩ := hflags
+          simp only [hqs, Bool.not_true, Bool.false_or, ht]
+          have htok : ((classify c).tok &&& (tokObject ||| tokArray) == 0) = false := by
+            rcases hc' with rfl | rfl <;> decide
+          simp only [htok, Bool.false_eq_true, ↓reduceIte, List.length_nil, Nat.sub_zero]
+          rcases hwhole with h | h
+          · simp [h]
+          · simp [h]
+        · cases hdoc
+
+/- non-vacuity: a document with every kind of token -/
+example : (J.doc true [0x7B, 0x22, 0x61, 0x22, 0x3A, 0x5B, 0x31, 0x2C, 0x74, 0x72, 0x75, 0x65, 0x5D, 0x7D]).isSome = true := by
+  decide
 
 end Mime.C08
